@@ -56,6 +56,11 @@ PNewCore(mn, mx, rules, m) ==
   /\ vers' = <<AsTags(rules)>> /\ done' = 1 /\ pend' = NoPend
   /\ model' = m
 
+\* a construction attempt: it succeeds exactly for 0 < min < max, a model in 1..4 and a text that compiles
+PNewTryCore(mn, mx, m, textok, ok) ==
+  /\ ok = (0 < mn /\ mn < mx /\ m \in 1..4 /\ textok)
+  /\ UNCHANGED pvars
+
 -----------------------------------------------------------------------------
 (* Requests *)
 
